@@ -168,12 +168,21 @@ class Lib:
         return self.cache[key]
 
     def _run(self, path, mode, fin, strict, use_cpp):
+        """The tree is obtained from pycparser directly, NOT through pymwp's Parser.parse (whose plumbing is under test):
+        a directive-free, comment-free text is parsed as it is (whatever use_cpp: the outcome must not depend on it),
+        any other file through `gcc -E` with the fake libc headers."""
         P = self.P
-        kw = {"use_cpp": use_cpp}
-        if use_cpp:
-            kw.update(cpp_path="gcc", cpp_args="-E")
+        import pycparser
+        from pycparser_fake_libc import directory as fake_libc
         try:
-            ast = P.Parser.parse(path, None, **kw)
+            with open(path) as fh:
+                text = fh.read()
+            if is_preprocessed(text):
+                ast = pycparser.c_parser.CParser().parse(text, filename=path)
+            elif use_cpp:
+                ast = pycparser.parse_file(path, use_cpp=True, cpp_path="gcc", cpp_args=["-E", "-I" + fake_libc])
+            else:
+                return ("raise", ["not-preprocessed-without-cpp", None])
             res = P.Result()
             res.program.n_lines = self.io.loc(path)
             an = P.LoopAnalysis if mode == "L" else P.Analysis
